@@ -4,9 +4,11 @@ import (
 	"encoding/json"
 	"fmt"
 	"os"
+	"os/exec"
 	"path/filepath"
 	"runtime"
 	"runtime/debug"
+	"sort"
 	"strings"
 )
 
@@ -47,8 +49,115 @@ func loadControls(id string) []control {
 	return cs
 }
 
+// seedControls replays the confirmed seeded changes filed under /verif/seeded/<name>/ for this
+// property: patch.diff is applied to scratch copies of the touched files (outside /repo) and the
+// result is loaded through the packages overlay; the check must report something it does not report
+// on the base.
+func seedControls(base *Ctx, id string, baseRep *Report) []controlResult {
+	var out []controlResult
+	dirs, _ := filepath.Glob(filepath.Join(verifRoot, "seeded", "*", "meta.json"))
+	sort.Strings(dirs)
+	for _, mf := range dirs {
+		b, err := os.ReadFile(mf)
+		if err != nil {
+			continue
+		}
+		var meta struct {
+			Property string `json:"property"`
+			Detected string `json:"detected_by_checks"`
+			Also     []string `json:"also_checked_by"`
+		}
+		if json.Unmarshal(b, &meta) != nil {
+			continue
+		}
+		applies := meta.Property == id
+		for _, a := range meta.Also {
+			if a == id {
+				applies = true
+			}
+		}
+		if !applies || !strings.HasPrefix(meta.Detected, "yes") {
+			continue
+		}
+		name := "seed:" + filepath.Base(filepath.Dir(mf))
+		patch := filepath.Join(filepath.Dir(mf), "patch.diff")
+		pb, err := os.ReadFile(patch)
+		if err != nil {
+			out = append(out, controlResult{name, "skipped", "patch.diff missing"})
+			continue
+		}
+		var files []string
+		for _, line := range strings.Split(string(pb), "\n") {
+			if strings.HasPrefix(line, "+++ b/") {
+				files = append(files, strings.TrimPrefix(line, "+++ b/"))
+			}
+		}
+		tmp, err := os.MkdirTemp("", "kafcheck-seed-")
+		if err != nil {
+			out = append(out, controlResult{name, "skipped", err.Error()})
+			continue
+		}
+		okCopy := true
+		for _, f := range files {
+			src, err := os.ReadFile(filepath.Join(base.Repo, f))
+			if err != nil {
+				okCopy = false
+				break
+			}
+			os.MkdirAll(filepath.Dir(filepath.Join(tmp, f)), 0o755)
+			os.WriteFile(filepath.Join(tmp, f), src, 0o644)
+		}
+		if !okCopy {
+			os.RemoveAll(tmp)
+			out = append(out, controlResult{name, "skipped", "a patched file no longer exists"})
+			continue
+		}
+		cmd := exec.Command("patch", "-p1", "-s", "--no-backup-if-mismatch", "-d", tmp, "-i", patch)
+		if outp, err := cmd.CombinedOutput(); err != nil {
+			os.RemoveAll(tmp)
+			out = append(out, controlResult{name, "skipped", "patch no longer applies to the current source: " + strings.TrimSpace(string(outp))})
+			continue
+		}
+		overlay := map[string][]byte{}
+		for _, f := range files {
+			nb, _ := os.ReadFile(filepath.Join(tmp, f))
+			overlay[filepath.Join(base.Repo, f)] = nb
+		}
+		os.RemoveAll(tmp)
+		ctx := &Ctx{Repo: base.Repo, Tier: "quick", Overlay: overlay, mods: map[string]*Module{}}
+		rep := runProp(ctx, id)
+		fired := ""
+		for _, r := range rep.Results {
+			if r.Status != Violation && r.Status != Undecided && r.Status != Unresolved {
+				continue
+			}
+			already := false
+			for _, br := range baseRep.Results {
+				if br.Rule == r.Rule && br.Construct == r.Construct && (br.Status == r.Status || br.Status == Known) {
+					already = true
+				}
+			}
+			if !already {
+				fired = fmt.Sprintf("%s %s | %s", r.Status, r.Rule, r.Construct)
+				break
+			}
+		}
+		if fired != "" {
+			out = append(out, controlResult{name, "fired", fired})
+		} else {
+			out = append(out, controlResult{name, "missed", "the seeded change is no longer reported"})
+		}
+		ctx = nil
+		runtime.GC()
+		debug.FreeOSMemory()
+	}
+	return out
+}
+
 func runControls(base *Ctx, id string, baseRep *Report) []controlResult {
 	var out []controlResult
+	defer func() {}()
+	out = append(out, seedControls(base, id, baseRep)...)
 	for _, c := range loadControls(id) {
 		abs := filepath.Join(base.Repo, c.File)
 		src, err := os.ReadFile(abs)
